@@ -23,6 +23,10 @@ func init() {
 			spec: engineSpec{name: "c14", race: true}, label: "c14-race",
 			quickRuns: 900, quickDL: 70 * time.Second, thorRuns: 60000, thorDL: 28 * time.Minute,
 			description: "race-detector build, schedules from the tape",
+		}, {
+			spec: engineSpec{name: "c14", race: true}, label: "c14-cold", extra: []string{"-cold"}, perProc: 1,
+			quickRuns: 12, quickDL: 40 * time.Second, thorRuns: 400, thorDL: 10 * time.Minute,
+			description: "one run per fresh worker process, burst first: state the library initialises on first use is first used by racing readers; the serial references are computed after the burst",
 		}},
 	}
 	specs["C13"] = &checkSpec{
